@@ -1381,6 +1381,78 @@ def rule_t6(P):
     return findings, obl, {"t6_all_source_axes_readers": n}
 
 
+def rule_t11(P):
+    """Glyph ids in every emitted table index ONE list: the final `glyph_order` (after `.notdef` synthesis, non-export pruning and
+    bracket glyphs).  The front ends also publish a *preliminary* order that can differ in length and positions.  Layering clause:
+    the preliminary order is touched only by the front-end jobs that write it, by the glyph-order job that turns it into the final
+    order, by the scheduler (which diffs the two to create jobs) and by the context plumbing; a backend job or any other fontir
+    job never reads it, so a glyph id / glyph count taken from it cannot reach a table."""
+    from common import norm_fn
+    findings, obl = [], []
+    FIELD = "f:preliminary_glyph_order:"
+    touchers = set()
+    for key, b in P.bodies.items():
+        if "#promoted" in key:
+            continue
+        hit = False
+        for blk in b["blocks"]:
+            for st in blk["s"]:
+                rv = st["rv"]
+                pls = [rv.get("p")] + [o.get("m") or o.get("c") for o in rv.get("o", [])]
+                if any(pl and any(isinstance(e, str) and e.startswith(FIELD) for e in pl) for pl in pls):
+                    hit = True
+            t = blk["t"]
+            if t["t"] == "call":
+                for o in t["a"]:
+                    pl = o.get("m") or o.get("c")
+                    if pl and any(isinstance(e, str) and e.startswith(FIELD) for e in pl):
+                        hit = True
+        if hit:
+            touchers.add(b.get("root") or key)
+    n = 0
+    for r in sorted(touchers):
+        nf = norm_fn(r)
+        crate = r.split("::", 1)[0]
+        why = None
+        if crate in ("glyphs2fontir", "ufo2fontir", "fontra2fontir"):
+            why = "front end (writes it)"
+        elif nf.startswith("fontir::orchestration::"):
+            why = "context plumbing"
+        elif nf.startswith("fontir::glyph::") and P.is_work_exec_impl(r) and _touches_field(P, r, "f:glyph_order:"):
+            why = "the glyph-order job (also touches the final order)"
+        elif re.match(r"fontc::workload::\{impl#\d+\}::handle_success$", nf):
+            why = "scheduler: diffs preliminary and final order to create glyph jobs"
+        n += 1
+        ok = why is not None
+        obl.append({"rule": "T11", "inst": f"{nf} touches Context.preliminary_glyph_order ({why or 'NOT allowed'})", "ok": ok})
+        if not ok:
+            findings.append({"rule": "T11", "key": f"T11|{nf}", "msg": f"{r} reads the PRELIMINARY glyph order: glyph ids and the glyph count of every emitted table refer to the final "
+                             f"order (with a synthesized .notdef, without non-export glyphs, with bracket glyphs); a position or length taken from the preliminary list "
+                             f"disagrees with glyf/loca/hmtx/maxp whenever the two differ", "loc": P.body_file_line(r), "detail": {}})
+    if n < 5:
+        raise E5Error(f"T11: only {n} functions touch preliminary_glyph_order (field renamed?)")
+    return findings, obl, {"t11_preliminary_order_touchers": n}
+
+
+def _touches_field(P, key, field):
+    b = P.bodies.get(key)
+    if not b:
+        return False
+    for blk in b["blocks"]:
+        for st in blk["s"]:
+            rv = st["rv"]
+            pls = [rv.get("p")] + [o.get("m") or o.get("c") for o in rv.get("o", [])]
+            if any(pl and any(isinstance(e, str) and e.startswith(field) for e in pl) for pl in pls):
+                return True
+        t = blk["t"]
+        if t["t"] == "call":
+            for o in t["a"]:
+                pl = o.get("m") or o.get("c")
+                if pl and any(isinstance(e, str) and e.startswith(field) for e in pl):
+                    return True
+    return False
+
+
 def rule_n5(P):
     """The name table is the union of the records derived from the source and the records the feature file declares, where a
     feature-file record replaces a derived one only if platform, encoding, language and name id are all equal (one map keyed by
